@@ -227,28 +227,34 @@ func c09RaceRun(seed int64, t string, digest string) *C09RaceResult {
 // sets of the invocation.  NonTrivial = the detector really ran and its positive control
 // fired.
 func c09RaceCase(seed int64, t string, sets []*Case) *Case {
-	c09RaceOnce.Do(func() { c09RaceRes = c09RaceRun(seed, t, C09Digest(sets)) })
-	res := c09RaceRes
-	tag := "race-detector=on"
-	if !res.Built {
-		tag = "race-detector=UNAVAILABLE(fallback: repeated goroutine runs without -race)"
-		fmt.Fprintln(os.Stderr, "C09: cannot build the race-detector binary, falling back:", res.BuildErr)
-	}
 	var h hist.History
 	if len(sets) > 0 {
 		h = sets[0].Hist
 	}
-	tags := []string{tag, fmt.Sprintf("race-jobsets=%d", len(sets))}
-	if res.Built {
-		if res.FirstBuildErr == "" && res.FirstControlExit == c09RaceExit {
-			tags = append(tags, fmt.Sprintf("race-first-use-processes=%d", len(res.First)))
-		} else {
-			tags = append(tags, "race-first-use=UNAVAILABLE")
+	// The race run (it builds and runs child processes that execute ALL job sets) is taken when
+	// the case is judged, not while the cases are generated (c09Lazy): an implementation that
+	// blocks is then met by the cases of the main loop first, under the per-case hang guard.
+	c := &Case{Hist: h, Stream: "race", Tags: []string{fmt.Sprintf("race-jobsets=%d", len(sets))},
+		Meta: map[string]interface{}{"sets": sets, "seed": seed, "tier": t}}
+	return c09Lazy(c, func(c *Case) {
+		c09RaceOnce.Do(func() { c09RaceRes = c09RaceRun(seed, t, C09Digest(sets)) })
+		res := c09RaceRes
+		tag := "race-detector=on"
+		if !res.Built {
+			tag = "race-detector=UNAVAILABLE(fallback: repeated goroutine runs without -race)"
+			fmt.Fprintln(os.Stderr, "C09: cannot build the race-detector binary, falling back:", res.BuildErr)
 		}
-	}
-	return &Case{Hist: h, Stream: "race", NonTrivial: res.Built && res.ControlExit == c09RaceExit,
-		Tags: tags,
-		Meta: map[string]interface{}{"race": res, "sets": sets, "seed": seed, "tier": t}}
+		c.Tags = append(c.Tags, tag)
+		if res.Built {
+			if res.FirstBuildErr == "" && res.FirstControlExit == c09RaceExit {
+				c.Tags = append(c.Tags, fmt.Sprintf("race-first-use-processes=%d", len(res.First)))
+			} else {
+				c.Tags = append(c.Tags, "race-first-use=UNAVAILABLE")
+			}
+		}
+		c.NonTrivial = res.Built && res.ControlExit == c09RaceExit
+		c.Meta["race"] = res
+	})
 }
 
 func c09Head(s string, lines int) string {
